@@ -170,6 +170,13 @@ Theorem C15_checker_specs :
 Proof. exact (conj wfb_spec (conj same_taxa_spec (conj is0_spec (conj in01_spec (conj oq_eqb_spec setsets_eqb_spec))))). Qed.
 Print Assumptions C15_checker_specs.
 
+(* ---- the check cannot raise a false alarm: if lingpy returns what the model computes
+        (for well-formed a, b and ANY a', b'), every bit of the case code is 0 ---- *)
+Theorem C15_no_false_alarm :
+  forall a b a' b', wf_tree a -> wf_tree b -> td_case_code (model_case a b a' b') = 0.
+Proof. exact no_false_alarm. Qed.
+Print Assumptions C15_no_false_alarm.
+
 (* ---------------- non-vacuity ---------------- *)
 Local Open Scope string_scope.
 
